@@ -124,9 +124,13 @@ def run(rep, tier):
             cb_ok = False
             if cb and precedes_on_all_paths(fn, lambda e: e is cb[0][2], (wb, wi)):
                 for lam in fn.lambdas():
-                    locks = any(e.get("k") == "ctor" and e.get("rec") == "std::unique_lock" and e.get("args") and P(e["args"][0]) == INTERNAL
-                                for _, _, e in lam.all_events())
-                    notif = any(e.get("k") == "call" and callee_short(e) == "notify_all" and e.get("args") and is_moved(e["args"][0])
+                    # the callback locks the internal mutex of the shared data and notifies all on the condition variable
+                    # next to it (the data is reached through a capture or, in a named function object, a member)
+                    lk_paths = [P(e["args"][0]) for _, _, e in lam.all_events() if e.get("k") == "ctor" and e.get("rec") == "std::unique_lock" and e.get("args") and
+                                P(e["args"][0]).endswith("mtx_")]
+                    locks = bool(lk_paths)
+                    notif = any(e.get("k") == "call" and callee_short(e) == "notify_all" and e.get("args") and is_moved(e["args"][0]) and
+                                any(P(e.get("recv")) == lp[:-len("mtx_")] + "cond_" for lp in lk_paths)
                                 for _, _, e in lam.all_events())
                     cb_ok = cb_ok or (locks and notif)
             if tested and cb_ok:
